@@ -5,7 +5,7 @@ import itertools, collections, copy, json, io, contextlib
 from common import *
 
 RULE = ("histories of add_entry / add_entries / remove_entry over an alphabet of valid, invalid, duplicate-formula, "
-        "duplicate-SMILES, charged, heavy-element and empty-string compounds: ALL histories up to length 3 (quick) / 4 (thorough) "
+        "duplicate-SMILES, charged, heavy-element, empty-string and non-canonically spelled compounds, bulk adds with a label clash inside the batch: ALL histories up to length 3 (quick) / 4 (thorough) "
         "from the empty database, random histories up to length 40 from both shipped databases; the database after the history and "
         "every returned rejection list are compared with the model.  Non-trivial: a history with at least one accepted and one "
         "rejected operation; distinct = distinct (start, history).")
@@ -17,7 +17,11 @@ HDR = ("From Coq Require Import String ZArith List Bool.\nFrom SynRBL Require Im
 ALPHA = [("H2O", "O"), ("HCl", "Cl"), ("H2O", "OO"), ("water", "O"), ("bad", "XX"), ("OH-", "[OH-]"), ("e", ""),
          ("NaCl", "[Na+].[Cl-]"), ("U", "[U]"), ("Cl2", "ClCl"), ("NH3", "N"), ("H3N", "N"), ("H2", "[H][H]"), ("bad2", "C1CC"),
          # syntactically fine but chemically impossible: RDKit's sanitising parser rejects them
-         ("CH5x", "C(C)(C)(C)(C)C"), ("NH5", "[NH5]"), ("arom", "c1cccn1"), ("F2x", "F=F")]
+         ("CH5x", "C(C)(C)(C)(C)C"), ("NH5", "[NH5]"), ("arom", "c1cccn1"), ("F2x", "F=F"),
+         # non-canonical spellings (the database stores the SMILES as offered) and a second label / a second spelling for them
+         ("CH4O", "OC"), ("MeOH", "OC"), ("methanol", "CO"), ("nitrate", "[N+](=O)([O-])[O-]"), ("NO3-", "[N+](=O)([O-])[O-]"), ("boric", "B(O)(O)O"),
+         # the same label for different compounds (inside one bulk add the first is accepted, the second rejected)
+         ("acid", "CC(=O)O"), ("acid", "OC=O"), ("HCl", "C1")]
 
 
 def atoms_of(s):
@@ -89,7 +93,8 @@ def run(ctx):
         check_inv(ctx, starts[name], dup_pairs(starts[name]), {"start": name, "ops": []})
 
     ops_alpha = [("add", f, s) for f, s in ALPHA[:9]] + [("add",) + ALPHA[14]] + [("remove", "H2O"), ("remove", "OH-"), ("remove", "nope"),
-                 ("many", [ALPHA[0], ALPHA[4], ALPHA[5]]), ("many", [ALPHA[3], ALPHA[1]])]
+                 ("many", [ALPHA[0], ALPHA[4], ALPHA[5]]), ("many", [ALPHA[3], ALPHA[1]]),
+                 ("add",) + ALPHA[18], ("add",) + ALPHA[19], ("many", [ALPHA[24], ALPHA[25]]), ("many", [ALPHA[1], ALPHA[26], ALPHA[20]])]
     L = 3 if ctx.quick() else 4
     hist = []
     for n in range(1, L + 1):
